@@ -161,6 +161,10 @@ class Impl:
         self.layers = {l: _build_layer(kind, self.B, self.delayed) for l, kind in LAYERS[self.topo]}
         self.kinds = dict(LAYERS[self.topo])
         self.cellrefs = {}  # generic layer: cell key -> weakref of the Cell handed out by layer.add_cell
+        # expected Cell.training (what trainer() gates on): follows layer.train(mode) calls; a Cell object created
+        # later (generic layer: first add_cell, re-creation after layer.del_cell) starts in training mode like any
+        # new torch module, whatever mode its layer is in
+        self.cell_training = {k: True for k in CELLS[self.topo] if self.kinds[LOC[k[0]][0]] != "gen"}
         self.trainers = {}
         self.held = {}  # (idx, cname, mname, uid) -> strong reference kept by the "user"
         self.refs = {}  # uid -> weakref of the implementation object
@@ -182,6 +186,8 @@ class Impl:
         prev = prev() if prev is not None else None
         check(prev is None or cell is prev, "layer:add_cell",
               lambda: f"{ctx.what}: layer.add_cell({c}, {n}) returned a new Cell although the pair already has one", ctx)
+        if prev is None:
+            self.cell_training[key] = True
         self.cellrefs[key] = weakref.ref(cell)
         return cell
 
@@ -599,6 +605,9 @@ def _apply(ctx: Ctx, op):
         with impl(ctx.what):
             im.layers[lname].train(mode)
         w.layer_training[lname] = mode
+        for k in im.cell_training:
+            if LOC[k[0]][0] == lname:
+                im.cell_training[k] = mode
     elif name == "step":
         _step(ctx, op[1])
     elif name == "tstep":
@@ -859,7 +868,7 @@ def _trainer_step(ctx: Ctx, idx, sig):
             tr()
     after = _acc_state(im)
     param = "bias" if tm.ttype == "LinearHomeostasis" else "weight"
-    act = [e for e in tm.cells.values() if tm.training and w.layer_training[LOC[e.cellkey[0]][0]]]
+    act = [e for e in tm.cells.values() if tm.training and im.cell_training[e.cellkey]]
     touched = {(e.cellkey[0], param) for e in act}
     for key in after:
         nb = len(before[key][0]) + len(before[key][1])
